@@ -491,6 +491,45 @@ func rulesC17(e *Engine, r *Report) {
 	}
 	// ---------------------------------------------------------------- R17.12
 	e.shareRule(r, "C02", "R02.11", "R17.12", "a changed file is sent again, not deleted: the two places that remove a confirmed source file by path (the confirmation itself, the scan's clean-up of aged confirmed files) first compare the file on disk with the cache entry; a file rewritten after it was sent or during its delete-delay stays for the next scan to queue it as a new version")
+	// R17.11 (second half): what is hashed and streamed is found the same way
+	if fn := needFn(e, r, "R17.11", "store.(*Local).Open"); fn != nil {
+		ops := e.findInstrs(fn, "call(os.Open)(§)", false)
+		r.Min("R17.11", "os.Open in the store's opener", len(ops), 1)
+		for _, in := range ops {
+			arg := in.(ssa.CallInstruction).Common().Args[0]
+			ok := true
+			var facts []string
+			var visit func(v ssa.Value, conds []string, depth int)
+			visit = func(v ssa.Value, conds []string, depth int) {
+				if ph, isPhi := v.(*ssa.Phi); isPhi && depth < 6 {
+					for i, ed := range ph.Edges {
+						pred := ph.Block().Preds[i]
+						cs := e.domConds(pred)
+						if t, isIf := pred.Instrs[len(pred.Instrs)-1].(*ssa.If); isIf && pred.Succs[0] != pred.Succs[1] {
+							cs = append(cs, e.CondStr(t.Cond, pred.Succs[0] == ph.Block()))
+						}
+						visit(ed, cs, depth+1)
+					}
+					return
+				}
+				c := e.Canon(v)
+				switch {
+				case c == "invoke(sts.File.GetPath)(p1)":
+					facts = append(facts, "the file's own path")
+				case strings.HasPrefix(c, "call(filepath.Join)([call(filepath.Dir)(invoke(sts.File.GetPath)(p1)), "):
+					facts = append(facts, "relative link joined to the link's directory")
+				case strings.HasSuffix(c, ".Link") && hasStr(conds, "call(filepath.IsAbs)(§.Link)"):
+					facts = append(facts, "absolute link text")
+				default:
+					ok = false
+					facts = append(facts, "UNRESOLVED LINK TEXT: "+c)
+				}
+			}
+			visit(arg, e.domConds(in.Block()), 0)
+			r.Check(ok, "R17.11", "store.(*Local).Open: a link is opened through its own path, an absolute target, or a target taken relative to the link's directory", e.InstrPos(in),
+				"the opener opens the link text as written: a relative target is looked up in the process's working directory - the file cannot be hashed (it is never sent) or another file of that name is hashed and sent", 1, facts...)
+		}
+	}
 }
 
 // checkNoSharedAppend: a sender-private list that is appended to must not be
